@@ -14,7 +14,8 @@
     of every excluded host, filters applied                   (-w / -x arguments: list_split, the dash of -x),
                                                               `file_contents_to_contacted` (file CONTENTS, includes,
                                                               WCOLL, two-bracket words: C10's theorem imported)
-  -x list / `-` word / -x ^file / -^file                    `x_option_is_dash_words` (every variant), `exclusion_correct_options`; files: C10
+  -x list / `-` word / -x ^file / -^file                    `x_option_is_dash_words` (every variant),
+                                                              `exclusion_correct_options`; files: C10
                                                               `target_list_end_to_end` + `excluded_file_same_reader`
   /re/ keeps only matches, dash /re/ removes all matches    `filterRegex_hosts`, `applyRegex_hosts`,
                                                               `filter_keep_drop_complement`, `filter_matches_everything`,
@@ -39,7 +40,9 @@
   test is idempotent; correspondence only — /repo carries the repair); exclusion words whose names have a numeric
   tail > 2^25 (`SmallName`, F16-BIGSUFFIX at the library level); an exclusion FILE whose ranged text reaches 4 MiB
   (the model stops with `ub`, the real pdsh is compared with the specification only); that dsh.c refines C03's
-  LTS and that `dsh()` numbers the targets in list order (C03's trace correspondence; C01 `iter_all`).
+  LTS and that `dsh()` numbers the targets in list order (C03's trace correspondence; C01 `iter_all`); that the
+  text-level reading of the oracle (`Spec.classify`) gives EVERY well-formed word its meaning (`ReadsRight` is a
+  decidable hypothesis of `oracle_is_spec`; the general statement belongs to C01's specification).
 -/
 import PdshVerif.Opt.ExcludeContact
 import PdshVerif.Opt.ExcludeBridge
